@@ -1,4 +1,9 @@
-(* C13 -- model of the DAP adapter's breakpoint requests
+(* C13 -- model of the DAP adapter's breakpoint requests, /repo HEAD (after a630610: records
+   remember the breakpoint NUMBERS and addresses of all returned views, the previous set is
+   removed with remove_breakpoint_by_number; 5361f91: the hit lookup goes by the number of the
+   breakpoint installed at the stop address; 8630d99: `restart` returns the real first stop of
+   the new process, so it is filtered like any other stop = a separate [Hit] request here).
+   The pre-fix model is kept as ModelDapBp_old.v.bak.
      src/dap/yadap/session/breakpoint.rs  (HitCondition, set*Breakpoints handlers)
      src/dap/yadap/session/control.rs     (should_skip_breakpoint, record lookup, restart)
      src/dap/yadap/session/init.rs        (configurationDone = start)
@@ -184,11 +189,11 @@ Definition parse_hit_opt (o : option bstr) : option hitcond :=
 
 (* BreakpointRecord (breakpoint.rs:17-25) *)
 Record brec := mk_rec {
-  r_id : N; r_addrs : list addr;
+  r_id : N; r_addrs : list addr; r_nums : list N;
   r_cond : bool; r_hit : option hitcond; r_log : bool; r_hits : N
 }.
-Definition new_rec (id : N) (addrs : list addr) (o : opts) : brec :=
-  mk_rec id addrs (o_cond o) (parse_hit_opt (o_hit o)) (o_log o) 0.
+Definition new_rec (id : N) (addrs : list addr) (nums : list N) (o : opts) : brec :=
+  mk_rec id addrs nums (o_cond o) (parse_hit_opt (o_hit o)) (o_log o) 0.
 
 (* the user-defined part of BreakpointRegistry (breakpoint.rs:1003-1011) plus the debuggee
    status, GLOBAL_BP_COUNTER and the address watchpoints *)
@@ -236,6 +241,24 @@ Definition dbg_remove (d : dbg) (k : addr) : dbg :=
        | Rel a => with_en d (en_remove a (d_en d))
        | Glob _ => d
        end.
+
+(* BreakpointRegistry::remove_by_num (breakpoint.rs:1100-1120): look the number up in the disabled
+   map first, then in the enabled one, and hand the KEY found to remove_by_addr (so an enabled
+   breakpoint goes through remove_by_addr(Relocated a), which again consults the disabled map
+   first).  Independent of the address form the adapter stored. *)
+Definition dbg_remove_num (d : dbg) (n : N) : dbg :=
+  match find (fun e => snd e =? n) (d_dis d) with
+  | Some e => dbg_remove d (fst e)
+  | None => match find (fun e => snd e =? n) (d_en d) with
+            | Some e => dbg_remove d (Rel (fst e))
+            | None => d
+            end
+  end.
+(* the numbers handed out to k consecutive creations.  (The adapter stores view.number of the
+   views re-read after all places were added; when one request line lists the same address twice
+   that is the later number twice.  Removal by number and the hit lookup behave the same.) *)
+Fixpoint nums_from (n : N) (k : nat) : list N :=
+  match k with O => [] | S k' => n :: nums_from (next_num n) k' end.
 
 Definition in_progress (d : dbg) : bool := phase_eqb (d_phase d) InProgress.
 
@@ -290,11 +313,11 @@ Section Oracles.
     mk_dbg p [] (disable_list (d_en d) (d_dis d)) (d_num d) (d_wps d).
 
   Definition remove_addrs (l : list addr) (d : dbg) : dbg := fold_left dbg_remove l d.
-  (* `for record in prev { for addr in record.addresses { remove_breakpoint(addr) } }` *)
+  Definition remove_nums (l : list N) (d : dbg) : dbg := fold_left dbg_remove_num l d.
+  (* `for record in prev { for number in record.numbers { remove_breakpoint_by_number(number) } }` *)
   Definition remove_records (rs : list brec) (d : dbg) : dbg :=
-    fold_left (fun d r => remove_addrs (r_addrs r) d) rs d.
+    fold_left (fun d r => remove_nums (r_nums r) d) rs d.
 
-  Definition first_only (l : list addr) : list addr := match l with [] => [] | v :: _ => [v] end.
 
   (* handle_set_breakpoints loop (breakpoint.rs:240-305): every place is installed, only the
      FIRST view's address is kept in the record *)
@@ -303,7 +326,7 @@ Section Oracles.
     | [] => (d, [])
     | (line, o) :: t =>
         let gs := resolve_line src line in
-        let r := new_rec id (first_only (view_addrs d gs)) o in
+        let r := new_rec id (view_addrs d gs) (nums_from (d_num d) (length gs)) o in
         let '(d2, rs) := set_lines src t (add_places gs d) (id + 1) in
         (d2, r :: rs)
     end.
@@ -314,7 +337,7 @@ Section Oracles.
     | [] => (d, [])
     | (name, o) :: t =>
         let gs := match name with Some f => resolve_fn f | None => [] end in
-        let r := new_rec id (view_addrs d gs) o in
+        let r := new_rec id (view_addrs d gs) (nums_from (d_num d) (length gs)) o in
         let '(d2, rs) := set_fns t (add_places gs d) (id + 1) in
         (d2, r :: rs)
     end.
@@ -326,7 +349,7 @@ Section Oracles.
     | (ref, o) :: t =>
         let '(d1, addrs) := match ref with Some a => dbg_set_addr d a | None => (d, []) end in
         let '(d2, rs) := set_instrs t d1 (id + 1) in
-        (d2, new_rec id addrs o :: rs)
+        (d2, new_rec id addrs (match addrs with [] => [] | _ => [d_num d] end) o :: rs)
     end.
 
   (* set_watchpoint_on_memory (watchpoint.rs:772-783): ProcessNotStarted, AddressAlreadyObserved,
@@ -389,12 +412,12 @@ Section Oracles.
     match alist_get N.eqb l src with Some rs => rs | None => [] end.
 
   (** ** Hit bookkeeping (control.rs:94-138, 197-254) *)
-  Definition rec_has (k : addr) (r : brec) : bool := existsb (addr_eqb k) (r_addrs r).
+  Definition rec_has (k : N) (r : brec) : bool := existsb (N.eqb k) (r_nums r).
   Definition bump (r : brec) : brec :=
-    mk_rec (r_id r) (r_addrs r) (r_cond r) (r_hit r) (r_log r)
+    mk_rec (r_id r) (r_addrs r) (r_nums r) (r_cond r) (r_hit r) (r_log r)
            (if r_hits r =? u64_lim - 1 then r_hits r else r_hits r + 1).   (* saturating_add *)
   (* first record holding k gets its hit_count bumped; returns the bumped record *)
-  Fixpoint bump_first (k : addr) (rs : list brec) : option (list brec * brec) :=
+  Fixpoint bump_first (k : N) (rs : list brec) : option (list brec * brec) :=
     match rs with
     | [] => None
     | r :: t => if rec_has k r then Some (bump r :: t, bump r)
@@ -403,7 +426,7 @@ Section Oracles.
                      | None => None
                      end
     end.
-  Fixpoint bump_src (k : addr) (l : list (N * list brec)) : option (list (N * list brec) * brec) :=
+  Fixpoint bump_src (k : N) (l : list (N * list brec)) : option (list (N * list brec) * brec) :=
     match l with
     | [] => None
     | (src, rs) :: t =>
@@ -416,7 +439,7 @@ Section Oracles.
         end
     end.
   (* record_breakpoint_hit: by_source maps first, then function, then instruction records *)
-  Definition record_hit (s : sess) (k : addr) : option (sess * brec) :=
+  Definition record_hit (s : sess) (k : N) : option (sess * brec) :=
     match bump_src k (s_src s) with
     | Some (l, b) => Some (mk_sess (s_dbg s) l (s_fn s) (s_ins s) (s_data s) (s_next s), b)
     | None =>
@@ -494,12 +517,14 @@ Section Oracles.
         | _ => Ok (s, RNone)
         end
     | Hit a cv =>
-        if in_progress d && en_has a (d_en d) then
-          match record_hit s (Rel a) with
+        match (if in_progress d then alist_get N.eqb (d_en d) a else None) with
+        | Some n =>
+          match record_hit s n with
           | None => Ok (s, RHit true 0)                  (* no record: plain stop *)
           | Some (s', b) => let '(st, o) := decide b cv in Ok (s', RHit st o)
           end
-        else Ok (s, RNone)                               (* not a user breakpoint trap *)
+        | None => Ok (s, RNone)
+        end                               (* not a user breakpoint trap *)
     end.
 
   Fixpoint run (s : sess) (h : list req) : res (sess * list resp) :=
@@ -559,13 +584,23 @@ Section Oracles.
     && match parse_hit_opt (o_hit o) with Some h => hc_matches h nth | None => true end
     && negb (o_log o).
 
-  (* (location, kind, options) of the latest sets: who owns a location *)
+  (* who owns a location: (kind, index of the requested breakpoint in its latest set, options).
+     All places of one requested breakpoint share one hit counter. *)
   Inductive okind := KSrc (src : N) | KFn | KIns.
-  Definition owners (p : spec_st) : list (N * (okind * opts)) :=
-    flat_map (fun e => flat_map (fun b => map (fun a => (a, (KSrc (fst e), snd b))) (line_locs (fst e) b)) (snd e)) (p_src p)
-    ++ flat_map (fun b => map (fun a => (a, (KFn, snd b))) (fn_locs b)) (p_fn p)
-    ++ flat_map (fun b => map (fun a => (a, (KIns, snd b))) (ins_locs b)) (p_ins p).
-  Definition owner_of (p : spec_st) (a : N) : option (okind * opts) :=
+  Definition okind_eqb (x y : okind) : bool :=
+    match x, y with
+    | KSrc a, KSrc b => a =? b
+    | KFn, KFn | KIns, KIns => true
+    | _, _ => false
+    end.
+  Fixpoint index_from {A} (i : N) (l : list A) : list (N * A) :=
+    match l with [] => [] | x :: t => (i, x) :: index_from (i + 1) t end.
+  Definition owners (p : spec_st) : list (N * (okind * N * opts)) :=
+    flat_map (fun e => flat_map (fun ib => map (fun a => (a, (KSrc (fst e), fst ib, snd (snd ib))))
+                                             (line_locs (fst e) (snd ib))) (index_from 0 (snd e))) (p_src p)
+    ++ flat_map (fun ib => map (fun a => (a, (KFn, fst ib, snd (snd ib)))) (fn_locs (snd ib))) (index_from 0 (p_fn p))
+    ++ flat_map (fun ib => map (fun a => (a, (KIns, fst ib, snd (snd ib)))) (ins_locs (snd ib))) (index_from 0 (p_ins p)).
+  Definition owner_of (p : spec_st) (a : N) : option (okind * N * opts) :=
     match find (fun e => fst e =? a) (owners p) with Some e => Some (snd e) | None => None end.
   (* does request q (re)create the records of kind k? *)
   Definition defines (k : okind) (q : req) : bool :=
@@ -575,14 +610,20 @@ Section Oracles.
     | KIns, SetInstruction _ => true
     | _, _ => false
     end.
-  (* number of Hit events at address a since its owner was (re)created; [past] newest first *)
-  Fixpoint hits_since (k : okind) (a : N) (past : list req) : N :=
+  Definition owned_by (p : spec_st) (k : okind) (it : N) (b : N) : bool :=
+    match owner_of p b with
+    | Some (k', it', _) => okind_eqb k k' && (it =? it')
+    | None => false
+    end.
+  (* number of Hit events at ANY place of requested breakpoint (k, it) since it was (re)created;
+     [past] newest first *)
+  Fixpoint hits_since (p : spec_st) (k : okind) (it : N) (past : list req) : N :=
     match past with
     | [] => 0
     | q :: t => if defines k q then 0
                 else match q with
-                     | Hit b _ => (if a =? b then 1 else 0) + hits_since k a t
-                     | _ => hits_since k a t
+                     | Hit b _ => (if owned_by p k it b then 1 else 0) + hits_since p k it t
+                     | _ => hits_since p k it t
                      end
     end.
 
@@ -592,33 +633,49 @@ Section Oracles.
   Fixpoint nodupb (l : list N) : bool :=
     match l with [] => true | x :: t => negb (existsb (N.eqb x) t) && nodupb t end.
 
-  (* one-location-per-line part of the guard *)
-  Definition single_loc (q : req) : bool :=
-    match q with
-    | SetSource src bps => forallb (fun b => N.of_nat (length (resolve_line src (fst b))) <=? 1) bps
-    | _ => true
-    end.
   Definition is_bp_set (q : req) : bool :=
     match q with SetSource _ _ | SetFunction _ | SetInstruction _ => true | _ => false end.
 
-  (* Guard of C13_replace_partial: every breakpoint-setting request arrives while the
-     debuggee is running (phase InProgress), every line has at most one location, and after
-     each request no location is shared by two requested breakpoints. *)
-  Fixpoint guard_from (ph : phase) (p : spec_st) (h : list req) : bool :=
+  (* how many debugger breakpoints a request can create (an upper bound) *)
+  Definition cost (q : req) : N :=
+    match q with
+    | SetSource src bps => N.of_nat (length (flat_map (fun b => resolve_line src (fst b)) bps))
+    | SetFunction bps => N.of_nat (length (flat_map (fun b => match fst b with Some f => resolve_fn f | None => [] end) bps))
+    | SetInstruction bps => N.of_nat (length bps)
+    | _ => 0
+    end.
+  (* instruction breakpoints requested while the debuggee is NOT running must be installable *)
+  Definition ins_valid (ph : phase) (q : req) : bool :=
+    match q with
+    | SetInstruction bps =>
+        phase_eqb ph InProgress
+        || forallb (fun b => match fst b with Some a => valid a | None => true end) bps
+    | _ => true
+    end.
+  Definition next_phase (q : req) (ph : phase) : phase :=
+    match q, ph with
+    | Start, Unload => InProgress
+    | Restart, _ => InProgress
+    | Exit, InProgress => Exited
+    | _, _ => ph
+    end.
+
+  (* Guard of C13_replace.  The one substantial clause: after every breakpoint-setting request
+     no location is shared by two requested breakpoints ([nodupb (expected_locs ..)]).  Two
+     technical clauses: an instruction breakpoint requested while the debuggee is not running
+     names an installable address (otherwise C13_instr_verified_refuted), and the process-wide
+     breakpoint counter (AtomicU32, wrapping) does not wrap: n bounds the counter. *)
+  Fixpoint guard_from (n : N) (ph : phase) (p : spec_st) (h : list req) : bool :=
     match h with
     | [] => true
     | q :: t =>
-        let ph' := match q, ph with
-                   | Start, Unload => InProgress
-                   | Restart, _ => InProgress
-                   | Exit, InProgress => Exited
-                   | _, _ => ph
-                   end in
         let p' := spec_step p q in
-        (if is_bp_set q then phase_eqb ph InProgress && single_loc q && nodupb (expected_locs p') else true)
-        && guard_from ph' p' t
+        (if is_bp_set q
+         then nodupb (expected_locs p') && ins_valid ph q && (n + cost q <? 4294967296)
+         else true)
+        && guard_from (n + cost q) (next_phase q ph) p' t
     end.
-  Definition guard (h : list req) : bool := guard_from Unload spec_init h.
+  Definition guard (num0 : N) (h : list req) : bool := guard_from num0 Unload spec_init h.
 
 End Oracles.
 
@@ -718,7 +775,8 @@ Definition snap_locs (bias : N) (l : list (N * N * N)) : list N :=
      locations of the latest sets, and `verified` is true exactly for the requested
      breakpoints that have at least one location;
    - a Hit at an expected location stops / logs according to the owner's options; the hit
-     number is the count of Hit steps at that address since the request that created its owner
+     number is the count of Hit steps at ANY place of the owning requested breakpoint since
+     the request that created it
      (counted across restarts, the lenient reading); a logpoint that passes its condition
      and hit condition emits at least one output and never stops;
    - a Hit at an address that no latest set contains violates the spec. *)
@@ -762,8 +820,8 @@ Section CaseCheck.
                  end
           | Hit a cv, RHit st outs =>
               match owner_of rl rf va bias p a with
-              | Some (k, o) =>
-                  let nth := hits_since k a past + 1 in
+              | Some (k, it, o) =>
+                  let nth := hits_since rl rf va bias p k it past + 1 in
                   Bool.eqb st (spec_stop o nth cv)
                   && (if o_log o && spec_stop (mk_opts (o_cond o) (o_hit o) false) nth cv
                       then 1 <=? outs else true)
